@@ -272,6 +272,28 @@ ASSUMPTIONS += [
     "the unit is its dotted path from the top-level class (R20.25)",
 ]
 
+EXPLANATION += (
+    "  R20.26 (rules/c20_late_any.py; the Any/Never filter is the last step that can produce or expose an "
+    "annotation expression): by model execution of merge_sources (the interpreter of rules/_util_c20.py, as "
+    "for R20.22/R20.23) on a witness stub in which Any / Never stand in every sub-expression position of the "
+    "annotation forms the stub printer writes (Annotated[X, 'property'], Optional[X], list[X], dict[str, X], "
+    "Callable[..., X], Union[int, X], type[X], typing.Annotated[typing.X, 'property'], and bare X / typing.X "
+    "as control) on class attributes, module variables with and without a value, method and function "
+    "returns, the tree that reaches _merge_csts holds no AnnAssign annotation and no FunctionDef return "
+    "annotation that is a bare Any/Never (Name, or typing./typing_extensions. attribute): a step placed after "
+    "the filter that unwraps a wrapper, or a chain without the filter, is a violation whatever its spelling; "
+    "unwrapping before the filter, or filtering again afterwards, is not.  Blind spots: only the witness "
+    "forms (a step that unwraps another wrapper, or only under conditions the witness does not meet, passes); "
+    "parameter annotations are outside the property's clause; what the interpreter does not model is an "
+    "analysis error.  For this rule the interpreter reads generator expressions eagerly and constant "
+    "subscripts of sequences, and the typing of R20.3/R20.6 types `x.with_changes(..)` as the receiver's "
+    "class and `seq[i]` as the element type.")
+ASSUMPTIONS += [
+    "libcst's SimpleString.evaluated_value is the string the literal denotes (modelled as a field of the "
+    "witness node); with_changes returns a node of the receiver's class (dataclasses.replace) (R20.26, "
+    "R20.6)",
+]
+
 MP = "pytype/tools/merge_pyi/merge_pyi.py"
 REQUIRED_FILTERS =("RemoveAnyNeverTransformer", "RemoveTrivialTypesTransformer")
 APPLY = "ApplyTypeAnnotationsVisitor"
